@@ -862,6 +862,55 @@ pub fn spaces(tier: Tier) -> Vec<Space> {
             eval_script(&toks, &e, FEW_LEGS, acc, case);
         }));
     }
+    // 1a'. standard script shapes around ONE data element of every length 1..=N (a parser fast path that recognises a
+    // shape must still choose the push opcode by the payload length)
+    {
+        let e = env.clone();
+        let maxlen: u64 = if tier.is_thorough() { 1100 } else { 300 };
+        let extra: Vec<u64> = vec![65535, 65536];
+        let total = maxlen + extra.len() as u64;
+        const NSHAPES: u64 = 8;
+        v.push(Space::new("shape-x-push-length", NSHAPES * total, move |case, acc| {
+            let c = coords(case.idx, &[NSHAPES, total]);
+            let n = if c[1] < maxlen { c[1] + 1 } else { extra[(c[1] - maxlen) as usize] } as usize;
+            let data: Vec<u8> = (0..n).map(|i| (i * 3 + 0xb1) as u8).collect();
+            let d = rs::minimal_push(&data);
+            let op = |b: u8| Tok::Op(b);
+            let toks: Vec<Tok> = match c[0] {
+                0 => vec![op(0x76), op(0xa9), d, op(0x88), op(0xac)],
+                1 => vec![d, op(0xac)],
+                2 => vec![op(0xa9), d, op(0x87)],
+                3 => vec![op(0x6a), d],
+                4 => vec![op(0x00), op(0x6a), d],
+                5 => vec![d, op(0x75)],
+                6 => vec![op(0x51), d.clone(), d, op(0x52), op(0xae)],
+                _ => vec![op(0x76), op(0xa9), d.clone(), op(0x88), op(0xad), op(0x76), op(0xa9), d, op(0x88), op(0xac)],
+            };
+            eval_script(&toks, &e, FEW_LEGS, acc, case);
+        }));
+    }
+    // 1a''. conditional grammar: every token string of up to N symbols over {IF, NOTIF, ELSE, ENDIF, OP_1, push} - the
+    // well-formed ones (several ELSE per block, empty branches, any nesting) are scripts the library holds
+    {
+        let e = env.clone();
+        let syms: Vec<Tok> = vec![Tok::Op(rs::OP_IF), Tok::Op(0x64), Tok::Op(rs::OP_ELSE), Tok::Op(rs::OP_ENDIF), Tok::Op(0x51), Tok::Push(vec![0xaa, 0xbb])];
+        let maxk: u32 = if tier.is_thorough() { 8 } else { 7 };
+        let mut offsets = vec![0u64];
+        for k in 0..=maxk {
+            offsets.push(offsets[k as usize] + 6u64.pow(k));
+        }
+        let total = *offsets.last().unwrap();
+        v.push(Space::new("cond-grammar", total, move |case, acc| {
+            let k = offsets.iter().rposition(|o| *o <= case.idx).unwrap();
+            let mut rem = case.idx - offsets[k];
+            let mut toks = vec![Tok::Op(0x61); k];
+            for i in (0..k).rev() {
+                toks[i] = syms[(rem % 6) as usize].clone();
+                rem /= 6;
+            }
+            eval_script(&toks, &e, FEW_LEGS, acc, case);
+        }));
+    }
     // 1b. every ordered pair over the sub-alphabet
     {
         let e = env.clone();
